@@ -153,6 +153,10 @@ func handleShareMemoryByFilePath(s *Session, hdr header) error {
 func handleFallbackData(s *Session, h header, buf []byte) (int, bool, error) {
 	eventLen := int(h.Length())
 	payloadLen := eventLen - headerSize
+	if payloadLen < 8 {
+		// shorter than the fixed fields (seqID, status) of a fallback data event
+		return headerSize, false, ErrInvalidMsgType
+	}
 	if len(buf) < payloadLen {
 		return 0, true, nil
 	}
